@@ -969,7 +969,9 @@ theorem sim_roundRef (sc : Scripts) : ∀ (fuel : Nat) (w : World) (j : JState),
               obtain ⟨a, b, c, d, e⟩ := hops
               dsimp only
               simp only [List.foldl_cons, List.foldl_append, List.foldl_nil, hj2, hjc]
-              have hd := done_abort a (by rw [d]; simp [j2, hin]) e
+              have a' : R0 { errorHandler w2 with cg := none } (evs.foldl judge1 j2) :=
+                ⟨a.hbs, a.known, a.nofn, a.dead, a.flag, a.cur, a.ok, a.cap, a.sub⟩
+              have hd := done_abort a' (by rw [d]; simp [j2, hin]) e
               exact ⟨hd.1, hd.2.1.trans b, hd.2.2.1, hd.2.2.2⟩
             | _ =>
               simp only [reduceCtorEq, if_false] at hops
@@ -1155,22 +1157,160 @@ theorem sim_rpFold {j0 : JState} : ∀ (l : List Nat) (acc : World × List Ev), 
   | nil => intro acc h; exact h
   | cons o r ih => intro acc h; exact ih _ (sim_rpStep acc h o)
 
-/-- one pass of the backend loop: pending program replacements, then call_heart_beat -/
+theorem sim_applyRp {w : World} {j : JState} (h : Idle w j) : Idle (applyRp w).1 ((applyRp w).2.foldl judge1 j) := by
+  unfold applyRp
+  apply sim_rpFold
+  obtain ⟨h0, hin, hex, hbad⟩ := h
+  exact ⟨⟨h0.hbs, h0.known, h0.nofn, h0.dead, h0.flag, h0.cur, h0.ok, h0.cap, h0.sub⟩, hin, hex, hbad⟩
+
+/-! command_giver after a pass of the loop -/
+
+theorem roundRef_cg (sc : Scripts) : ∀ (fuel : Nat) (w : World), w.cg = none → (roundRef sc fuel w).1.cg = none := by
+  intro fuel
+  induction fuel with
+  | zero => intro w h; exact h
+  | succ f ih =>
+    intro w h
+    unfold roundRef
+    by_cases hneg : w.idx < 0
+    · rw [if_pos hneg]; exact h
+    · rw [if_neg hneg]
+      cases hget : w.hbs[w.idx.toNat]? with
+      | none => exact h
+      | some hb =>
+        dsimp only
+        by_cases hf : (!w.nofn.contains hb.ob && decide (wrap16 (hb.ticks - 1) < 1)) = true
+        · rw [if_pos hf]
+          rcases hr : runOps _ hb.ob (sc hb.ob (w.nb hb.ob)) with ⟨w2, evs, st⟩
+          cases st with
+          | err => rfl
+          | ok =>
+            dsimp only
+            split
+            · rw [finish_ref]
+            · exact ih _ rfl
+          | stop =>
+            dsimp only
+            split
+            · rw [finish_ref]
+            · exact ih _ rfl
+        · rw [if_neg hf]
+          split
+          · rw [finish_ref]; exact h
+          · exact ih _ h
+
+theorem tickCore_cg (sc : Scripts) (w : World) (h : w.cg = none) : (tickCore sc w).1.cg = none := by
+  rw [tick_eq_ref]
+  unfold tickRef
+  split
+  · split
+    · rw [round_eq_ref]
+      exact roundRef_cg sc _ _ h
+    · exact h
+  · exact h
+
+theorem rpStep_cg (acc : World × List Ev) (o : Nat) : (rpStep acc o).1.cg = acc.1.cg := by
+  unfold rpStep; split <;> rfl
+
+theorem applyRp_cg (w : World) : (applyRp w).1.cg = w.cg := by
+  unfold applyRp
+  have : ∀ (l : List Nat) (acc : World × List Ev), (l.foldl rpStep acc).1.cg = acc.1.cg := by
+    intro l
+    induction l with
+    | nil => intro acc; rfl
+    | cons o r ih => intro acc; rw [List.foldl_cons, ih, rpStep_cg]
+  exact this _ _
+
+/-- **no heart_beat object stays behind as command_giver**: after a pass of the backend loop command_giver is 0, whether
+    the round completed, was truncated, abandoned by an error, or never started -/
+theorem morePasses_cg (sc : Scripts) : ∀ (fuel : Nat) (w : World), w.cg = none → (morePasses sc fuel w).1.cg = none := by
+  intro fuel
+  induction fuel with
+  | zero =>
+    intro w h
+    unfold morePasses
+    dsimp only
+    split
+    · exact (applyRp_cg w).trans h
+    · exact (applyRp_cg w).trans h
+  | succ f ih =>
+    intro w h
+    have c1 : (applyRp w).1.cg = none := (applyRp_cg w).trans h
+    have c2 := tickCore_cg sc _ c1
+    unfold morePasses
+    dsimp only
+    split
+    · split
+      · exact ih _ c2
+      · exact c2
+    · exact c1
+
+theorem sim_morePasses (sc : Scripts) : ∀ (fuel : Nat) (w : World) (j : JState), Idle w j →
+    Idle (morePasses sc fuel w).1 ((morePasses sc fuel w).2.foldl judge1 j) := by
+  intro fuel
+  induction fuel with
+  | zero =>
+    intro w j h
+    have i1 := sim_applyRp h
+    unfold morePasses
+    dsimp only
+    split
+    · obtain ⟨h0, hin, hex, hbad⟩ := i1
+      simp only [List.foldl_append, List.foldl_cons, List.foldl_nil]
+      have hj : judge1 ((applyRp w).2.foldl judge1 j) .passLimit = { (applyRp w).2.foldl judge1 j with trunc := false } := by
+        simp [judge1, hex]
+      rw [hj]
+      exact ⟨⟨h0.hbs, h0.known, h0.nofn, h0.dead, rfl, h0.cur, h0.ok, h0.cap, h0.sub⟩, hin, hex, hbad⟩
+    · exact i1
+  | succ f ih =>
+    intro w j h
+    have i1 := sim_applyRp h
+    have i2 := sim_tickCore sc i1
+    unfold morePasses
+    dsimp only
+    split
+    · split
+      · have i3 := ih _ _ i2
+        simp only [List.foldl_append]
+        exact i3
+      · simp only [List.foldl_append]
+        exact i2
+    · exact i1
+
+theorem tick_cg_none (sc : Scripts) (w : World) : (tick sc w).1.cg = none := by
+  have c0 := tickCore_cg sc { w with cg := none, tflags := 0 } rfl
+  have c1 : (applyRp { (tickCore sc { w with cg := none, tflags := 0 }).1 with tflags := w.tflags }).1.cg = none :=
+    (applyRp_cg _).trans c0
+  have c2 := tickCore_cg sc _ c1
+  unfold tick
+  dsimp only
+  split
+  · exact morePasses_cg sc _ _ c2
+  · exact c2
+
+/-- one `tick` command: backend() entered (start-up call), pending program replacements, call_heart_beat, and the further
+    passes after an error -/
 theorem sim_tick (sc : Scripts) {w : World} {j : JState} (h : Idle w j) :
     Idle (tick sc w).1 ((tick sc w).2.foldl judge1 j) := by
-  have h1 : Idle (applyRp w).1 ((applyRp w).2.foldl judge1 j) := by
-    unfold applyRp
-    apply sim_rpFold
+  have hcg := tick_cg_none sc w
+  have hs : Idle { w with cg := none, tflags := 0 } j := by
     obtain ⟨h0, hin, hex, hbad⟩ := h
     exact ⟨⟨h0.hbs, h0.known, h0.nofn, h0.dead, h0.flag, h0.cur, h0.ok, h0.cap, h0.sub⟩, hin, hex, hbad⟩
-  unfold tick
-  cases hr : applyRp w with
-  | mk w1 e1 =>
-    rw [hr] at h1
-    have h2 := sim_tickCore sc h1
-    dsimp only
-    rw [List.foldl_append]
-    exact h2
+  have i0 := sim_tickCore sc hs
+  have i0' : Idle { (tickCore sc { w with cg := none, tflags := 0 }).1 with tflags := w.tflags }
+      ((tickCore sc { w with cg := none, tflags := 0 }).2.foldl judge1 j) := by
+    obtain ⟨h0', hin, hex, hbad⟩ := i0
+    exact ⟨⟨h0'.hbs, h0'.known, h0'.nofn, h0'.dead, h0'.flag, h0'.cur, h0'.ok, h0'.cap, h0'.sub⟩, hin, hex, hbad⟩
+  have i1 := sim_applyRp i0'
+  have i2 := sim_tickCore sc i1
+  unfold tick at hcg ⊢
+  dsimp only at hcg ⊢
+  simp only [List.foldl_append, List.foldl_cons, List.foldl_nil]
+  rw [hcg]
+  show Idle _ (List.foldl judge1 _ _)
+  split
+  · exact sim_morePasses sc _ _ _ i2
+  · exact i2
 
 /-- one top-level command -/
 theorem sim_stepCmd (sc : Scripts) {w : World} {j : JState} (h : Idle w j) (c : Cmd) :
